@@ -158,6 +158,25 @@ def gen_literal_case(rng):
     return case
 
 
+def gen_not_reagg(rng, k):
+    """targeted family, enumerated (k): a measure that cannot be re-aggregated from per-bucket values (count_distinct, median, stddev) listed in a time rollup and asked for
+    WITHOUT the time dimension, or at a coarser granularity, with all / some / none of the rollup's dimensions: the per-bucket values would have to be combined across buckets"""
+    case = gen_friendly(rng)
+    bad = ["cd", "med", "sd"][k % 3]
+    rdims = [[], ["g1"], ["g1", "g2"], ["g2"]][(k // 3) % 4]
+    tdim = [[], ["ts__month"], [], ["ts__year"]][(k // 12) % 4]
+    rows = []
+    for i in range(24):          # the same g1 / v values recur in several buckets: a distinct count / median over buckets is not the sum / median of the per-bucket ones
+        t = datetime.datetime(2024, 1, 1) + datetime.timedelta(days=[0, 0, 1, 9, 9, 33, 34, 70][i % 8], hours=[0, 5][i % 2])
+        rows.append((i + 1, t, ["a", "b", "a", "ab"][i % 4], ["x", "y", "x"][i % 3], [1, 2, 5, 9, 2, 1][i % 6], i % 3))
+    case["rows"] = rows
+    case["preaggs"] = [dict(name="r0", measures=[bad, "rev", "cnt"], dimensions=list(rdims), time_dimension="ts", granularity=["day", "week"][k % 2])]
+    case["mets"] = [bad] + (["rev"] if k % 4 == 0 else [])
+    case["dims"] = list(rdims) + tdim
+    case["filters"] = []
+    return case
+
+
 def gen_candidates(rng):
     """targeted family: SEVERAL rollups that are tried in turn, the earlier ones rejected for one reason (a missing measure, a granularity that is too
     coarse, a missing filter column) and a later one lacking something else the query needs (the time dimension, a dimension): what one candidate
@@ -430,6 +449,7 @@ def run(c):
     cases = corpus_cases() + [(gen_friendly(c.rng) if k % 2 else gen_case(c.rng)) for k in range(n)] + [gen_candidates(c.rng) for _ in range(max(12, n // 10))]
     cases = [x for _ in range(max(8, n // 30)) for x in gen_sibling_pair(c.rng)] + cases
     cases = cases + [gen_two_grans(c.rng) for _ in range(max(16, n // 12))] + [gen_literal_case(c.rng) for _ in range(max(16, n // 12))]
+    cases = cases + [gen_not_reagg(c.rng, k) for k in range(24 if c.tier == "quick" else 48)]
     results, terms, tindex = [], [], []
     stats = {"routed": 0, "not_routed": 0, "routed_equal": 0, "model_compared": 0, "exact_routes": 0, "inexact_routes": 0, "materialisation_errors": 0}
     for i, case in enumerate(cases):
